@@ -327,6 +327,15 @@ func runC07(r *rt.Runner) {
 				maps = append(maps, ref.GenCMap(rng, name))
 			}
 			file := ref.RenderFile(rng, maps)
+			switch rng.IntN(4) {
+			case 0:
+				// CR-only line ends throughout (a valid PostScript end of line)
+				file = bytes.ReplaceAll(bytes.ReplaceAll(file, []byte("\r\n"), []byte("\n")), []byte("\n"), []byte("\r"))
+				c.Count("files with CR-only line ends")
+			case 1:
+				file = bytes.ReplaceAll(bytes.ReplaceAll(file, []byte("\r\n"), []byte("\n")), []byte("\n"), []byte("\r\n"))
+				c.Count("files with CRLF line ends")
+			}
 			c.SetDetail(func() string { return fmt.Sprintf("file: %q", head(file, 6000)) })
 			d, err := postscript.ReadCMap(bytes.NewReader(file))
 			if err != nil {
